@@ -207,4 +207,14 @@ def fromBytes (data : List Nat) : Option (Option Image) :=
       | [] => some none  -- "IMD has no tracks": `Err(UnexpectedSize)`
       | _ => some (some { header := header, comment := comment, tracks := ts })
 
+/-- `Imd::from_bytes` with the outcome of `String::from_utf8` on the comment bytes as a parameter: a comment that is not
+UTF-8 is `Err(IllegalValue)` before any track is looked at -/
+def fromBytesV (valid : Bool) (data : List Nat) : Option (Option Image) :=
+  if data.length < 29 then some none else
+  let header := data.take 29
+  if ¬ (header.take 4 = [73, 77, 68, 32] ∧ (header.drop 4).take 2 ∈ [[48, 46], [49, 46]]) then some none else
+  match findEof (data.drop 29) with
+  | none => some none
+  | some _ => if valid then fromBytes data else some none
+
 end A2Verif.Model.C09Imd
